@@ -18,7 +18,7 @@ ap.add_argument("--seed", default="1")
 a = ap.parse_args()
 d = tempfile.mkdtemp(prefix="mut-", dir="/tmp")
 try:
-    for sub in ("vc2_conformance", "tests"):
+    for sub in ("vc2_conformance", "tests", "docs"):
         shutil.copytree(os.path.join("/repo", sub), os.path.join(d, sub), ignore=shutil.ignore_patterns("__pycache__"))
     if a.file == "--patch":
         subprocess.check_call(["patch", "-p1", "-i", a.old], cwd=d)
